@@ -181,3 +181,37 @@ func TestConcurrent(t *testing.T) {
 	}
 	wg.Wait()
 }
+
+func TestDeadlockDetection(t *testing.T) {
+	a, b := Pipe()
+	a.SetDeadlockDetection(true)
+	errs := make(chan error, 2)
+	// each end is driven by one goroutine; both read with nothing in flight
+	go func() { _, err := a.Read(make([]byte, 1)); errs <- err }()
+	go func() { time.Sleep(5 * time.Millisecond); _, err := b.Read(make([]byte, 1)); errs <- err }()
+	if e1, e2 := <-errs, <-errs; e1 != ErrDeadlock || e2 != ErrDeadlock {
+		t.Fatal(e1, e2)
+	}
+	// buffered data is still delivered, and switching detection off clears the condition
+	a.Write([]byte{7})
+	buf := make([]byte, 1)
+	if n, err := b.Read(buf); n != 1 || err != nil || buf[0] != 7 {
+		t.Fatal(n, err)
+	}
+	a.SetDeadlockDetection(false)
+	done := make(chan error, 1)
+	go func() { _, err := a.Read(buf); done <- err }()
+	time.Sleep(5 * time.Millisecond)
+	b.Write([]byte{1})
+	if err := <-done; err != nil {
+		t.Fatal(err)
+	}
+	// a reader whose peer is busy (not blocked) must keep waiting, not report a deadlock
+	a.SetDeadlockDetection(true)
+	go func() { _, err := a.Read(buf); done <- err }()
+	time.Sleep(5 * time.Millisecond)
+	b.Write([]byte{2})
+	if err := <-done; err != nil {
+		t.Fatal(err)
+	}
+}
